@@ -35,12 +35,18 @@ pub fn check_image(case: &mut Case, img: &ModularImage, thorough: bool) {
     let image = match open_image(&img.bytes, Pool::None, false) {
         Ok(i) => i,
         Err(e) => {
-            case.violation("open-err", format!("valid image rejected: {e} [{} | {}]", img.desc, img.enc_desc));
+            // known finding: the preview frame is sized from the image header
+            let sig = if matches!(img.preview, Some((_, _, true))) { "dev:preview-frame-size" } else { "open-err" };
+            case.violation(sig, format!("valid image rejected: {e} [{} | {} | preview {:?}]", img.desc, img.enc_desc, img.preview));
             return;
         }
     };
+    if img.preview.is_some() {
+        case.obs("images_with_preview_frame", 1);
+    }
     if image.num_loaded_frames() != 1 || !image.is_loading_done() {
-        case.violation("frames", format!("loaded_frames={} done={}", image.num_loaded_frames(), image.is_loading_done()));
+        let sig = if matches!(img.preview, Some((_, _, true))) { "dev:preview-frame-size" } else { "frames" };
+        case.violation(sig, format!("loaded_frames={} done={} [{} | preview {:?}]", image.num_loaded_frames(), image.is_loading_done(), img.desc, img.preview));
         return;
     }
     match frame_level_modular::<i32>(&image, 0) {
@@ -209,6 +215,7 @@ pub fn run(args: &Args) -> i32 {
                 _ => 4,
             },
             max_dim: if thorough { 1100 } else { 300 },
+            preview: 2,
             ..Default::default()
         } };
         let mut img = None;
